@@ -46,23 +46,23 @@ type c10Chunk struct {
 }
 
 type c10 struct {
-	c        *Ctx
-	w        *sim.World
-	ioc      *sonic.IO
-	bb       *sonic.BipBuffer
-	pc       sonic.PacketConn
-	size     int
-	maxDg    int
-	queue    []*c10Chunk
-	claim    []byte // outstanding claim (an asynchronous read is writing into it)
-	reading  bool
-	seqSent  int
-	seqRecv  int
+	c                  *Ctx
+	w                  *sim.World
+	ioc                *sonic.IO
+	bb                 *sonic.BipBuffer
+	pc                 sonic.PacketConn
+	size               int
+	maxDg              int
+	queue              []*c10Chunk
+	claim              []byte // outstanding claim (an asynchronous read is writing into it)
+	reading            bool
+	seqSent            int
+	seqRecv            int
 	consumedSinceClaim bool
-	timer    *sonic.Timer
-	stalled  bool
-	done     bool
-	bufBase  uintptr
+	timer              *sonic.Timer
+	stalled            bool
+	done               bool
+	bufBase            uintptr
 }
 
 func c10Byte(seq, i int) byte { return byte(seq*31 + i*7 + 3) }
